@@ -142,6 +142,17 @@ def run(ck):
                     except Exception as e:
                         ck.fail("raises:%s:%s" % (cond, limit), "get_DensityMatrix raised %r" % (e,), inp)
                         continue
+                    # a Hamiltonian handed in explicitly and equal to the aggregate's own gives the same state
+                    if not inside and cond in ("thermal", "thermal_excited_state") and not (limit == "strong_coupling" and cond == "thermal_excited_state"):
+                        try:
+                            rho_h = agg.get_DensityMatrix(condition_type=cond, relaxation_theory_limit=limit, temperature=T,
+                                                          relaxation_hamiltonian=agg.get_Hamiltonian())
+                            dvh = float(numpy.abs(numpy.array(rho_h.data) - d_site).max())
+                            if dvh > 1e-12:
+                                ck.fail("supplied-hamiltonian:%s:%s" % (cond, limit), "the state for relaxation_hamiltonian = the aggregate's own "
+                                        "Hamiltonian differs from the state without it", inp, dvh)
+                        except Exception as e:
+                            ck.fail("raises:supplied-hamiltonian:%s:%s" % (cond, limit), "get_DensityMatrix(relaxation_hamiltonian=...) raised %r" % (e,), inp)
                     what = "%s:%s" % (cond, limit)
                     ck.case((s, T, cond, limit, inside), nontrivial=(Teff < 5 or energies[0] > min(energies) or inside), condition=cond,
                             limit=limit, lowT=bool(Teff < 5), inside=inside, sample=inp if (s == 0 and T == 1.0 and cond != "thermal" and inside) else None)
@@ -186,6 +197,44 @@ def run(ck):
                             ratios(pops[lo:], ens[lo:], Teff, what + ":" + basis, inp, direct=(inside or (cond == "thermal" and not inside)))
                         if lo > 0 and numpy.abs(pops[:lo]).max() > 0:
                             ck.fail("ground:%s" % what, "excited-state equilibrium has ground-state population", inp)
+    # ---- the equilibrium state of the open-system interface (temperature of the bath), shifted ground-state energies --------
+    ta_b = TimeAxis(0.0, 100, 1.0)
+    for E0 in (0.0, 500.0, 10000.0, -200.0):
+        for Tb in ((300.0, 77.0, 5.0, 2.0) if not ck.quick else (300.0, 5.0)):
+            inp = {"interface": "get_thermal_ReducedDensityMatrix / get_excited_density_matrix", "ground_state_energy_cm": E0, "bath_T": Tb}
+            try:
+                with energy_units("1/cm"):
+                    cfb = CorrelationFunction(ta_b, dict(ftype="OverdampedBrownian", reorg=20.0, cortime=100.0, T=Tb, matsubara=20))
+                    msb = [Molecule([E0, E0 + 12000.0 + rng.randint(-100, 100)]), Molecule([0.0, 12200.0 + rng.randint(-100, 100)])]
+                    for m_ in msb:
+                        m_.set_transition_environment((0, 1), cfb)
+                        m_.set_dipole(0, 1, [1.0, 0.5, 0.0])
+                    aggb = Aggregate(msb)
+                    aggb.set_resonance_coupling(0, 1, 80.0)
+                aggb.build()
+                Hb = aggb.get_Hamiltonian()
+                rb = aggb.get_thermal_ReducedDensityMatrix()
+                with eigenbasis_of(Hb):
+                    d_eb = numpy.array(rb.data).copy()
+                    ens_b = numpy.real(numpy.diag(numpy.array(Hb.data))).copy()
+                d_sb = numpy.array(rb.data).copy()
+                re_ = aggb.get_excited_density_matrix(condition="delta")
+                d_ex = numpy.array(re_.data).copy()
+            except Exception as e:
+                ck.fail("raises:opensystem-thermal", "the open-system equilibrium / excited state raised %r" % (e,), inp)
+                continue
+            ck.case(("os-thermal", E0, Tb), nontrivial=(E0 != 0.0 or Tb < 10), condition="opensystem-thermal", limit="-", lowT=bool(Tb < 10), inside=False)
+            if check_state(d_sb, "opensystem-thermal", inp):
+                off = numpy.abs(d_eb - numpy.diag(numpy.diag(d_eb))).max()
+                if off > 1e-9:
+                    ck.fail("basis:opensystem-thermal", "equilibrium state is not diagonal in the eigenbasis of the Hamiltonian", inp, float(off))
+                else:
+                    ratios(numpy.real(numpy.diag(d_eb)), ens_b, Tb, "opensystem-thermal", inp, direct=True)
+                    # the same plan as the aggregate's algorithm: exponents relative to the lowest eigenvalue, nothing subtracted
+                    lines.append("plan %s %s %d %d %s %s" % (frac(Tb), frac(kB_intK * Tb), 0, len(ens_b), " ".join(frac(x) for x in ens_b),
+                                                             " ".join(frac(0.0) for _ in ens_b)))
+                    impl.append(numpy.real(numpy.diag(d_eb)))
+            check_state(d_ex, "opensystem-excited", inp, unit_trace=False)
     model = ck.drive(DRIVER, lines)
     if model is not None:
         for l, diag, b in zip(lines, impl, model):
